@@ -140,26 +140,34 @@ func cmdDriveShortcut(args []string) error {
 			pats = append(pats, p)
 		}
 	}
-	// grammar-made patterns next to the ones of the bundled lists
+	// grammar-made patterns next to the ones of the bundled lists (the grammar-made ones are all kept)
+	fromLists := len(pats)
 	for i := 0; i < n/4; i++ {
 		p := []string{"||", "|http://", "", "", "||"}[rnd.Intn(5)] + fill(rnd, 2+rnd.Intn(5)) + ".example"
 		for k := rnd.Intn(3); k > 0; k-- {
 			p += []string{"^", "*", "/", "/*/", "^*"}[rnd.Intn(5)] + fill(rnd, 1+rnd.Intn(8))
 		}
 		p += []string{"", "^", "|", "^|", "*"}[rnd.Intn(5)]
+		if i%9 == 4 {
+			// a dollar sign that is the last character of the rule text has no options behind it: it is a literal
+			p = strings.TrimRight(p, "|^*") + []string{"/price$", "?cost=$", "$"}[rnd.Intn(3)]
+		}
 		if !seen[p] {
 			seen[p] = true
 			pats = append(pats, p)
 		}
 	}
+	grammar := append([]string{}, pats[fromLists:]...)
+	pats = pats[:fromLists]
 	rnd.Shuffle(len(pats), func(i, j int) { pats[i], pats[j] = pats[j], pats[i] })
-	if len(pats) > n {
-		pats = pats[:n]
+	if len(pats) > n-len(grammar) {
+		pats = pats[:max(0, n-len(grammar))]
 	}
+	pats = append(pats, grammar...)
 	matches, long, panics := 0, 0, 0
 	var samples []string
 	for _, p := range pats {
-		mc := rnd.Intn(4) == 0
+		mc := rnd.Intn(4) == 0 && !strings.HasSuffix(p, "$")
 		text := p
 		if mc {
 			text += "$match-case"
@@ -177,6 +185,9 @@ func cmdDriveShortcut(args []string) error {
 			{"across-cut", instantiate(p, rnd, 4096-20-len(p)/2-rnd.Intn(8), false)},
 			{"before-cut", instantiate(p, rnd, 4096-30-2*len(p), true)},
 			{"long-tail", instantiate(p, rnd, 0, false) + "?" + fill(rnd, 5000)},
+			// near misses: the URL of the pattern without its last / without its first character
+			{"last-character-missing", instantiate(p[:len(p)-1], rnd, 0, false)},
+			{"first-character-missing", instantiate(p[1:], rnd, 0, false)},
 		}
 		for _, v := range vs {
 			with, without, lowerOK, hasSC, kept, pv := scObserve(text, v.url)
